@@ -90,6 +90,18 @@ CHECKS = {
         "duplications, swaps and stray bracket insertions of a 15-program corpus; all byte strings of length <= 2 and of length 3-4 over 40 bytes incl. "
         "NUL, ESC, DEL, invalid UTF-8. Oracle: terminates, exactly one of tree/error, errors positioned, no nil node, PrettyPrint and Validate do not "
         "panic, no lexer goroutine left blocked"),
+ "C14": dict(engine="engine-B", cat="exploration", ref="DESIGN.md 5, 7/C14", note="the text of a value is fmt.Sprint of it; literals with unbalanced markers or ill-formed expressions are only required to yield a string without panic, endless loop or evaluation of substituted data; evaluation runs under a deterministic 3000-visit step budget (harness debugger counting VisitState calls)", tech="bounded exhaustive enumeration of string literals x environments against a one-pass reference function, with a counting harness function as side-effect oracle",
+   text="all string literal bodies of <= 4 pieces (thorough 5, plus one more piece in the plain environment) over {{{, }}, {, }, a, space, x, tick(), 1+1, "
+        "\\n, \\\"} in quoted and raw form, with x bound in turn to \"v\", \"{{tick()}}\", \"{{x}}\", \"}}\", \"{{\", \"{{1+1}}\" (300 000 evaluations "
+        "quick): every literal yields a string without panic and within the step budget, tick() is called at most as often as it is written in the "
+        "literal itself, raw strings come back byte-identical, and well-nested literals equal the one-pass reference (substituted text never rescanned)"),
+ "C08": dict(engine="engine-B", cat="exploration", ref="DESIGN.md 5, 7/C08", note="tree equality = node kind, token value, identifier flag, raw-vs-interpolating flag and child structure (positions, comments, blank lines ignored); four recorded findings (see known_findings.json) are pinned by the repository's own tests or need a redesign of comment placement", tech="bounded exhaustive enumeration of parseable programs with the round trip parse -> print -> parse -> print as oracle",
+   text="every binary operator nested under every other on either side with and without parentheses, prefix operators on every operand and over every "
+        "parenthesised pair, inside calls and index expressions (thorough: all operator triples in 5 parenthesisations); a 34-program corpus covering "
+        "every statement kind, each nested in every block kind, with a /* */, # and multi-line comment inserted at every token boundary; comments in the "
+        "plain positions between/after top-level statements; lists and maps of 0-7 entries; sinks with every attribute subset; string literals over 13 "
+        "pieces (quotes, escapes, newlines, {{ }}, multi-byte) of length <= 3-4 in the four quoting forms; tool.FormatFiles on a directory tree. "
+        "Oracle: printing succeeds, the printed text parses to an equal tree, printing again gives the same text, unparseable files are left alone"),
 }
 
 ENGINES = [
